@@ -800,6 +800,9 @@ func installRetries(n *harness.Node, r *orch.Result, seed int64, e forge.Eras) f
 				failedDB[h] = true
 				mu.Unlock()
 				r.Count(counter, 1)
+				if snapH {
+					r.Seen("statements_failed_in_snapshot_blocks", clipS(strings.Join(strings.Fields(ev.SQL), " "), 48))
+				}
 				return vdriver.FailInstead, 0
 			}
 			if armed && retriesHistoryFocus && snapH {
@@ -815,7 +818,7 @@ func installRetries(n *harness.Node, r *orch.Result, seed int64, e forge.Eras) f
 			}
 			// (at activation and snapshot heights every other failing block keeps to the last statement: what a block
 			// leaves behind in memory is complete only then)
-			lastOnly := (special[h] || snapH) && mix(h, 5)%2 == 0 && !retriesHistoryFocus
+			lastOnly := ((snapH && (h/144)%2 == 0) || (!snapH && special[h] && mix(h, 5)%2 == 0)) && !retriesHistoryFocus // (snapshot heights alternate)
 			if armed && !lastOnly && !(retriesHistoryFocus && snapH) {
 				if snapH {
 					// snapshot blocks: one of the first statements after the rotation (inside the holders' payout, when
